@@ -323,6 +323,25 @@ impl Scenario for RepeatScenario {
             } else {
                 Dest::Own
             };
+            if rng.chance(1, 12) {
+                // RECORD_CURRENT_TIME has no callback of its own, but executing its duplicate is visible all the same: the time
+                // written afterwards is counted from the moment recorded
+                script.push(simple_request(refapp::FUNC_RECORD_CURRENT_TIME, vec![]));
+                script.push(Op::Sleep(rng.range(1, 900)));
+                script.push(Op::Repeat);
+                script.push(Op::Sleep(rng.range(1, 900)));
+                let base = 1_600_000_000_000u64 + rng.range(0, 1_000_000);
+                script.push(simple_request(
+                    refapp::FUNC_WRITE,
+                    vec![ReqHeader {
+                        group: 50,
+                        var: 3,
+                        range: Range::Count8(1),
+                        data: base.to_le_bytes()[..6].to_vec(),
+                    }],
+                ));
+                continue;
+            }
             if rng.chance(1, 8) {
                 // a SELECT and its matching OPERATE: the OPERATE is executed, and it is its retransmission that follows
                 let controls = gen_controls(rng);
@@ -407,6 +426,8 @@ pub struct RepeatOracle {
     sol_pending: Option<u32>,
     unsol_pending: bool,
     series_fragment_no: u32,
+    /// when the outstation received the RECORD_CURRENT_TIME that was processed last (retransmissions of it do not count)
+    recorded_at: Option<u64>,
     nontrivial: bool,
     fp: u64,
     counters: BTreeMap<String, u64>,
@@ -419,6 +440,7 @@ impl RepeatOracle {
             own: case.cfg.outstation_addr,
             last: None,
             transmitted: Vec::new(),
+            recorded_at: None,
             last_unsol: None,
             sol_pending: None,
             unsol_pending: false,
@@ -494,6 +516,45 @@ impl Oracle for RepeatOracle {
             .map(|c| &c.1)
             .filter(|c| c.is_mutating())
             .collect();
+
+        // executing the duplicate of a RECORD_CURRENT_TIME shows in the time written afterwards, which counts from the recorded moment
+        if step.connected || step.disconnected {
+            self.recorded_at = None;
+        }
+        if let (Some(s), true) = (sent.as_ref(), addressed) {
+            let plain = s.bytes.len() >= 2 && s.bytes[0] & 0xF0 == 0xC0 && s.src == self.master && s.dest == self.own;
+            if plain && s.bytes[1] == refapp::FUNC_RECORD_CURRENT_TIME && s.bytes.len() == 2 {
+                if !is_repeat {
+                    self.recorded_at = Some(s.t_ms);
+                }
+            } else if plain && s.bytes[1] == refapp::FUNC_WRITE && s.bytes.len() == 12 && s.bytes[2..6] == [50, 3, 0x07, 1] {
+                if let (Some(t0), false) = (self.recorded_at.take(), is_repeat) {
+                    let mut v = [0u8; 8];
+                    v[..6].copy_from_slice(&s.bytes[6..12]);
+                    let expected = u64::from_le_bytes(v) + (s.t_ms - t0);
+                    let written: Vec<u64> = step
+                        .callbacks
+                        .iter()
+                        .filter_map(|(_, cb)| if let Cb::WriteAbsTime(x) = cb { Some(*x) } else { None })
+                        .collect();
+                    if let [got] = written[..] {
+                        self.bump("probe.time_written_after_recorded_time_judged");
+                        if got > expected + 1 || got + 1 < expected {
+                            return Some(Violation::new(
+                                "C05/i duplicate-executed-again",
+                                "func=24 recorded-time-moved",
+                                format!(
+                                    "step {}: the time written is {} although the value sent plus the {} ms since RECORD_CURRENT_TIME was first received is {} (a retransmission of RECORD_CURRENT_TIME arrived in between)",
+                                    step.op_index, got, s.t_ms - t0, expected
+                                ),
+                            ));
+                        }
+                    }
+                }
+            } else if plain && s.bytes[1] != refapp::FUNC_CONFIRM && !is_repeat {
+                self.recorded_at = None;
+            }
+        }
 
         if let (true, Some(s), Some(last)) =
             (is_repeat && addressed, sent.as_ref(), self.last.clone())
